@@ -92,6 +92,7 @@ MkCore(e, rs, task) ==
 MkCase(e, rs, task) ==
     LET k == MkCore(e, rs, task)  pats == ExtraPatterns(Len(k.clips))
     IN  [task |-> k.task, C |-> k.C, u |-> k.u, items |-> k.items, clips |-> k.clips, style |-> k.style,
+         perm |-> IF task \in {"sec", "sed"} THEN (rs[1] + 2 * rs[e.n] + SumSeq(rs)) % 3 ELSE 0,
          extras |-> pats[1 + ((5 * rs[1] + SumSeq(rs) + (rs[e.n] \div 3) + 3 * TaskNo(task)) % Len(pats))]]
 Catalogue(e) == IF ~IsMl(e.kind) THEN SlValid(e.C) ELSE MlRaw(e.C)
 
@@ -186,6 +187,7 @@ LawFineOrders == (Out /\ c.task = "cml" /\ Len(c.items) = 2) =>
         IN  (a.y[k] = 1 /\ b.y[k] = 0 /\ a.s[k] = b.s[k] /\ a.f[k] \in {2, 3} /\ b.f[k] \in {0, 2, 3}) =>
                 ((ap.num = ap.den) <=> (a.f[k] > b.f[k]))
 LawConf == \A i \in DOMAIN c.items : c.items[i].conf \in {0, 1, 2, 4}
+LawPerm == c.perm \in 0..2
 LawStyle == c.style \in 0..3
 LawExtrasWellFormed == \A i \in DOMAIN c.extras : c.extras[i].pos \in 0..Len(c.clips) /\ c.extras[i].side \in {"pred", "ann"}
 \* detection: an annotation nothing was predicted for is a miss of the accuracy family unless it is itself unlabelled,
